@@ -1306,6 +1306,10 @@ def run(ctx):
         except Exception as e:  # noqa
             code0 = 1 if type(e) is ValueError else 2
         ocases.append(f"({json_term(j0)}, [], {code0}%nat)")
+        ctx.case(("outcome", repr(j0)), True, kind="from_json-outcome-class")
+        if (not isinstance(j0, dict) or "_type" not in j0) and code0 != 1:
+            ctx.finding("from_json-documented-error", f"deserialize_extraction({j0!r}) does not raise the documented ValueError "
+                        f"(outcome class {code0}: 0 = returned a value, 2 = another exception)", {"input": j0})
     for _ in range(ctx.n(1200, 6000)):
         top = jg.rng.random() < 0.3
         j = jg.dc(0) if (top or jg.rng.random() < 0.5) else jg.value()
